@@ -280,6 +280,7 @@ func run(c *Case) *vkit.Outcome {
 	}
 	expect := map[int]exp{}
 	var okOrder []int
+	innerLostAcks := 0
 	sqlClosed := false
 	for i, p := range c.Pubs {
 		id := i + 1
@@ -352,8 +353,29 @@ func run(c *Case) *vkit.Outcome {
 				if failed {
 					kind = "timeout"
 				}
-				expect[id] = exp{kind, failed, reflect.TypeOf(e), false}
-				if !failed {
+				// An inner store that answers "context deadline exceeded" may
+				// already have written the row (the driver notices the expiry
+				// after its INSERT went through): a lost acknowledgement of
+				// the store's own making, seen on a starved machine.  Whether
+				// the row exists is read from the inner store directly.
+				present := false
+				if failed && !sqlClosed {
+					if evs, _, rerr := inner.Read(context.Background(), eventbus.OffsetOldest, 0); rerr == nil {
+						for _, se := range evs {
+							var x struct {
+								ID int `json:"id"`
+							}
+							if se.Type != noticeType && json.Unmarshal(se.Data, &x) == nil && x.ID == id {
+								present = true
+							}
+						}
+					}
+					if present {
+						innerLostAcks++
+					}
+				}
+				expect[id] = exp{kind, failed, reflect.TypeOf(e), present}
+				if !failed || present {
 					okOrder = append(okOrder, id)
 				}
 			default:
@@ -455,6 +477,9 @@ func run(c *Case) *vkit.Outcome {
 			return o
 		}
 		o.Class("error_handler_publishes_on_the_same_bus")
+	}
+	if innerLostAcks > 0 {
+		o.Class("inner_store_reported_a_timeout_for_a_row_it_had_written")
 	}
 	if len(reports) != nFail && c.ErrHandler {
 		o.Failf("", "%s: %d failures, %d reports", desc, nFail, len(reports))
